@@ -267,3 +267,46 @@ Proof.
   intros Hb. pose proof (pow2_pos b Hb). rewrite pow2_succ by lia. rewrite (Z.mul_comm 2).
   rewrite Z.rem_mul_r by lia. rewrite <- Z.testbit_spec' by lia. destruct (Z.testbit n b); cbn [Z.b2z]; lia.
 Qed.
+
+(* ------------------------------------------------------------------ equivalent spellings of the same bit tricks
+   (a rewrite of the source may say `|` for `+` on disjoint bits, swap the operands of `&`, or count the ones at or above
+   a bit position through `& !mask` or `>>` instead of subtracting the ones below it) *)
+Lemma land_ones_mod' h i : 0 <= h -> Z.land i (2 ^ h - 1) = i mod 2 ^ h.
+Proof. intros Hh. rewrite Z.land_comm. apply land_ones_mod. exact Hh. Qed.
+
+Lemma lor_pow2_low h x : 0 <= h -> 0 <= x < 2 ^ h -> Z.lor (2 ^ h) x = x + 2 ^ h.
+Proof.
+  intros Hh Hx.
+  assert (L : Z.land (2 ^ h) x = 0).
+  { rewrite land_pow2_testbit by lia. destruct (Z.testbit x h) eqn:T; [|reflexivity].
+    pose proof (Z.testbit_spec' x h Hh) as S. rewrite T, Z.div_small in S by lia. cbn in S. lia. }
+  rewrite <- Z.lxor_lor by exact L. rewrite <- Z.add_nocarry_lxor by exact L. lia.
+Qed.
+
+Lemma lor_low_pow2 h x : 0 <= h -> 0 <= x < 2 ^ h -> Z.lor x (2 ^ h) = x + 2 ^ h.
+Proof. intros. rewrite Z.lor_comm. apply lor_pow2_low; assumption. Qed.
+
+Lemma wnot64_ones h : 0 <= h <= 64 -> 2 ^ 64 - 1 - (2 ^ h - 1) = Z.ldiff (Z.ones 64) (Z.ones h).
+Proof.
+  intros Hh. rewrite <- Z.sub_nocarry_ldiff.
+  - rewrite !Z.ones_equiv. lia.
+  - apply Z.bits_inj'. intros k Hk. rewrite Z.ldiff_spec, Z.bits_0.
+    destruct (Z.lt_ge_cases k h) as [L|G].
+    + rewrite (Z.ones_spec_low 64 k) by lia. rewrite Bool.andb_false_r. reflexivity.
+    + rewrite (Z.ones_spec_high h k) by lia. reflexivity.
+Qed.
+
+Lemma land_above h n : 0 <= h < 64 -> 0 <= n < 2 ^ 64 ->
+  Z.land n (2 ^ 64 - 1 - (2 ^ h - 1)) = n / 2 ^ h * 2 ^ h.
+Proof.
+  intros Hh Hn. rewrite wnot64_ones by lia. rewrite Z.ldiff_land, Z.land_assoc.
+  rewrite Z.land_ones by lia. rewrite Z.mod_small by lia. rewrite <- Z.ldiff_land.
+  rewrite Z.ldiff_ones_r by lia. rewrite Z.shiftr_div_pow2, Z.shiftl_mul_pow2 by lia. reflexivity.
+Qed.
+
+Lemma count_ones_above (m : nat) n : (m < 64)%nat -> 0 <= n < 2 ^ 64 ->
+  count_ones (Z.land n (2 ^ 64 - 1 - (2 ^ Z.of_nat m - 1))) = count_ones (n / 2 ^ Z.of_nat m).
+Proof.
+  intros Hm Hn. rewrite land_above by lia. apply count_ones_mul_pow2.
+  apply Z.div_pos; [lia|]. apply pow2_pos. lia.
+Qed.
